@@ -420,6 +420,28 @@ def coq_op(op, info):
     raise ValueError(k)
 
 
+def _ref_drop_many(ref, op, vals, sl):
+    n = len(ref)
+    idx = {i + n if i < 0 else i for i in op['l']}
+    if any(not -n <= i < n for i in op['l']):
+        raise IndexError
+    ref[:] = [x for i, x in enumerate(ref) if i not in idx]
+
+
+LIST_REF_OPS = {
+    'setitem': lambda ref, op, vals, sl: ref.__setitem__(op['i'], vals[0]),
+    'setslice': lambda ref, op, vals, sl: ref.__setitem__(sl(op['s']), list(vals)),
+    'delitem': lambda ref, op, vals, sl: ref.__delitem__(op['i']),
+    'delslice': lambda ref, op, vals, sl: ref.__delitem__(sl(op['s'])),
+    'insert': lambda ref, op, vals, sl: ref.insert(op['i'], vals[0]),
+    'append': lambda ref, op, vals, sl: ref.append(vals[0]),
+    'extend': lambda ref, op, vals, sl: ref.extend(vals),
+    'pop': lambda ref, op, vals, sl: ref.pop(op['i']) if op['i'] is not None else ref.pop(),
+    'clear': lambda ref, op, vals, sl: ref.clear(),
+    'drop_many': _ref_drop_many,
+}
+
+
 # ---- one call on the real implementation -----------------------------------------------------------
 def is_sep_text(s: str) -> bool:
     return s.strip(SEP_CHARS) == ''
@@ -535,6 +557,7 @@ def call(root, op, want_corr=True):
     # ---- the call
     exn = None
     result = None
+    list_ref = None
     try:
         k = op['op']
         if k == 'touch':
@@ -569,6 +592,15 @@ def call(root, op, want_corr=True):
             raw_slot = op.get('raw', name)
             vals = values if not op.get('plain') else [_decode(x, op.get('vtype')) for x in op['values']]
             sl = (lambda s: slice(s[0], s[1], s[2]))
+            if kind == 'rep' and not op.get('view') and k in LIST_REF_OPS:
+                # node-level list operation: which items must be there afterwards, by identity (a plain Python list
+                # subjected to the same call; computed before the call, compared after a successful one)
+                try:
+                    ref = list(w)
+                    LIST_REF_OPS[k](ref, op, vals, sl)
+                    list_ref = ref
+                except Exception:
+                    list_ref = None     # the plain list refuses too (or the arguments are not list arguments)
             if k == 'setitem':
                 w[op['i']] = vals[0]
             elif k == 'setslice':
@@ -613,6 +645,15 @@ def call(root, op, want_corr=True):
                 raise RuntimeError('unknown op ' + k)
     except Exception as e:  # the refusal (or a crash) under observation
         exn = e
+    if exn is None and list_ref is not None:
+        try:
+            now = list(getattr(parent, name))
+            if len(now) != len(list_ref) or any(x is not y for x, y in zip(now, list_ref)):
+                findings.append((SIG_VIEW, f'{op["op"]} on {type(parent).__name__}.{name}: the items afterwards are not those a plain list '
+                                           f'holds after the same call ({len(now)} items, the list has {len(list_ref)}): an element that '
+                                           f'was not addressed was removed, kept or moved'))
+        except Exception:
+            pass
     # ---- state after
     T1 = list(store)
     rec = {'exn': type(exn).__name__ if exn else None, 'findings': findings, 'case': None,
